@@ -135,16 +135,18 @@ class Program:
 _cache = {}
 
 
-def load(tags="", repo=None, workdir=None):
+def load(tags="", repo=None, workdir=None, goarch=""):
     """(Re)generate the SSA dump from the repo working tree and load it."""
     repo = repo or REPO
-    key = (tags, repo)
+    key = (tags, repo, goarch)
     if key in _cache:
         return _cache[key]
     workdir = workdir or os.environ.get("VERIF_WORK") or os.path.join(VERIF, "work")
     os.makedirs(workdir, exist_ok=True)
-    out = os.path.join(workdir, "ssa_%s_%d.json" % (tags or "default", os.getpid()))
+    out = os.path.join(workdir, "ssa_%s%s_%d.json" % (tags or "default", goarch, os.getpid()))
     env = dict(os.environ, GOFLAGS="-mod=mod", GOPROXY="off", GOSUMDB="off", GOTOOLCHAIN="local")
+    if goarch:
+        env["GOARCH"] = goarch
     cmd = [os.path.join(VERIF, "bin", "ssa2json"), "-dir", repo, "-o", out]
     if tags:
         cmd += ["-tags", tags]
